@@ -230,21 +230,22 @@ def predicate(r):
     for f in ws['files'] or []:
         origin[file_content(f)] = f['path']
         origin[file_content(f, True)] = f['path']
-    for rel, txt in before['files'].items():
-        origin.setdefault(txt, rel)
     where = {}
     for rel, txt in after['files'].items():
         o = origin.get(txt)
-        if o is None:
-            bad.append(('unknown-content-after', rel))
-        else:
+        if o is not None:
             where.setdefault(o, []).append(rel)
-    for rel in before['files']:
-        n = len(where.get(rel, []))
-        if n == 0:
-            bad.append(('file-lost', rel))
-        elif n > 1:
-            bad.append(('file-duplicated', rel))
+        elif before['files'].get(rel) != txt:
+            bad.append(('unknown-content-after', rel))
+    for rel, txt in before['files'].items():
+        if txt in origin:
+            n = len(where.get(origin[txt], []))
+            if n == 0:
+                bad.append(('file-lost', rel))
+            elif n > 1:
+                bad.append(('file-duplicated', rel))
+        elif after['files'].get(rel) != txt:
+            bad.append(('other-file-changed', rel))
     sel = set(selected(ws))
     for rel in before['files']:
         if rel not in sel and after['files'].get(rel) != before['files'][rel]:
